@@ -97,6 +97,7 @@ EXT = {'P?': sym_parse, 'B?': sym_bind, 'D?': sym_describe, 'C?': sym_close, 'E'
        'Pbegin': lambda: conc_msg('Pbegin', P('', 'BEGIN')), 'Pcommit': lambda: conc_msg('Pcommit', P('', 'COMMIT')), 'Perror': lambda: conc_msg('Perror', P('', 'SELECT 1/0')),
        'Pset': lambda: conc_msg('Pset', P('', 'SET statement_timeout TO 5')),
        'P': lambda: conc_msg('P', P('', 'SELECT 1')), 'P2': lambda: conc_msg('P2', P('', 'SELECT 2')),
+       'Ps1b': lambda: conc_msg('Ps1b', P('s1', 'SELECT 3')), 'Ps2': lambda: conc_msg('Ps2', P('s2', 'SELECT 2')), 'Cs2': lambda: conc_msg('Cs2', C('S', 's2')),
        'Pst1': lambda: conc_msg('Pst1', P('s1', 'SELECT * FROM t1')), 'Pst2': lambda: conc_msg('Pst2', P('s2', 'SELECT * FROM t2')), 'Bs2': lambda: conc_msg('Bs2', B('', 's2')),
        'Pt1': lambda: conc_msg('Pt1', P('', 'SELECT * FROM t1')), 'Pt2': lambda: conc_msg('Pt2', P('', 'SELECT * FROM t2')), 'Ps': lambda: conc_msg('Ps', P('s1', 'SELECT 1')), 'Bs': lambda: conc_msg('Bs', B('', 's1')),
        'B': lambda: conc_msg('B', B('', '')), 'Cs': lambda: conc_msg('Cs', C('S', 's1')), 'Ds': lambda: conc_msg('Ds', D('S', 's1')),
@@ -246,12 +247,17 @@ def run_case(chk, ob, ip, prog, case, props, extra_judge=None):
         V = HE.judge(data, eff, dec, cache_on=bool(case.cache), expect_incomplete=inc, denied=denied, allow_pooler_replies=bool(case.plugins or case.custom),
                      idle_rule=(case.mode == 'transaction' and not case.plugins and not case.custom and eff is complete))
         V += customV
+        if case.cache and not case.plugins and 'C08' in props:
+            V += c08_reference(data, complete, dec, case.cache)
         if extra_judge:
             V += extra_judge(env, data, complete, dec)
         if case.paused is not None and not inc:
             # RESUME releases every held client: after it, the session must run to its end
             if data['outcome'][0] == 'pending' or any(k == 'H/request-not-forwarded' for _p, k, _t in V):
                 V.append(('C16', 'H/held-after-resume', 'the client is still held (or its request was dropped) after RESUME'))
+        if os.environ.get('HDEBUG'):
+            for r in data['reqs']:
+                print('  ORIGIN', r['g'], r['backend'], r.get('origin'), HE.show(r['bytes'][:30]))
         for prop, key, text in V:
             if prop not in props:
                 continue
@@ -259,6 +265,13 @@ def run_case(chk, ob, ip, prog, case, props, extra_judge=None):
             hexs = bytes(model_byte(m, b) for b in sent).hex()
             cmd = {'op': 'handle_script', 'client_hex': hexs, 'eof': True, 'mode': case.mode, 'cache': case.cache,
                    'roles': ['primary' if r == 0 else 'replica' for r in case.roles]}
+            if prop == 'C10':
+                mm_ = re.search(r'before reading message (\d+)', text)
+                if mm_:
+                    upto = sum(len(x) for x in msgs[:int(mm_.group(1))])
+                    cmd['client_hex'] = hexs[:2 * upto]
+                    cmd['eof'] = False
+                cmd['probe_b'] = False
             if key == 'H/idle-client-keeps-server':
                 # natively: the client stays connected and idle after the completed request; a second client must still be served
                 kk = int(re.search(r'request (\d+) completed', text).group(1))
@@ -303,7 +316,7 @@ def run_case(chk, ob, ip, prog, case, props, extra_judge=None):
                 n_before = len(HE.default_forward(msgs[:k]))
             chk.report(ob, '%s/%s' % (prop, key), '%s [script %s]' % (text, case.label()),
                        {'script': case.label(), 'client_bytes_hex': hexs, 'outcome': list(data['outcome'])},
-                       {'commands': [cmd], 'expect': ['h_violation', prop, key, bool(case.cache), inc, hexs, n_before,
+                       {'commands': [cmd], 'expect': ['h_violation', prop, key, (case.cache if prop == 'C08' else bool(case.cache)), inc, hexs, n_before,
                                                       [bytes(model_byte(m, b) for b in dm).hex() for dm in (denied_msgs if case.plugins else [])],
                                                       [bytes(model_byte(m, b) for mm in eff for b in mm).hex()] if case.plugins else None,
                                                       [list(rs) for rs in (case.shards or [case.roles])] if case.custom else None]})
@@ -573,6 +586,72 @@ def effective_script(script, verdicts, cache_on=False):
     return eff, denied
 
 
+def c08_reference(data, script, dec, cache_size=None):
+    """Statement caching is invisible: every Execute of the client's program runs exactly the text the client most recently prepared
+    under the name its Bind used, and a valid program never sees "prepared statement does not exist".  The reference backends put
+    two hex digits of a hash of the text they executed into every result row."""
+    import hashlib
+    V = []
+    stmts, portals, expected = {}, {}, []
+    valid = True
+    batch_names, widest = set(), 0
+    for m in script:
+        cm = HE.conc(m)
+        if cm is None:
+            return V
+        c, body = cm[:1], cm[5:]
+        if c == b'S':
+            widest = max(widest, len(batch_names))
+            batch_names = set()
+        if c == b'P':
+            name, sql, _ = body.split(b'\0', 2)
+            stmts[name] = sql
+            if name:
+                batch_names.add(name)
+        elif c == b'B':
+            portal, name, _ = body.split(b'\0', 2)
+            if name not in stmts:
+                valid = False
+            if name:
+                batch_names.add(name)
+            portals[portal] = name
+        elif c == b'D' and body[:1] == b'S':
+            if body[1:].split(b'\0', 1)[0] not in stmts:
+                valid = False
+        elif c == b'E':
+            sql = stmts.get(portals.get(body.split(b'\0', 1)[0]))
+            if sql is None or not sql.upper().startswith(b'SELECT') or b'1/0' in sql:
+                return V        # alignment of rows is only decided for plain SELECTs
+            expected.append(sql)
+        elif c == b'C' and body[:1] == b'S':
+            stmts.pop(body[1:].split(b'\0', 1)[0], None)
+        elif c == b'Q':
+            t = body[:-1].strip().rstrip(b';')
+            if t.upper().startswith(b'SELECT') and b'1/0' not in t and b';' not in t:
+                expected.append(t)
+            elif t.upper() not in (b'BEGIN', b'COMMIT', b'ROLLBACK'):
+                return V
+    out_msgs, _ = HE.split_messages(data['client_out'], 'bytes written to the client')
+    rows = []
+    for m in out_msgs:
+        cm = HE.conc(m)
+        if cm is None:
+            continue
+        if cm[:1] == b'D' and len(cm) == 5 + 2 + 4 + 8:
+            rows.append(cm[-2:])
+        if cm[:1] == b'E' and b'C26000' in cm and b'VFATAL' not in cm and valid:
+            # classified by input class: one batch that uses more distinct named statements than the server-side cache holds
+            cls = 'batch-exceeds-cache' if (cache_size is not None and widest > cache_size) else 'other'
+            V.append(('C08', 'H/statement-missing-on-server/' + cls, 'the client\'s valid program is answered "prepared statement does not exist" by a server '
+                      '(largest batch uses %d distinct named statements, statement cache size %s)' % (widest, cache_size)))
+    for k, (sql, got) in enumerate(zip(expected, rows)):
+        want = b'%02x' % hashlib.sha256(sql).digest()[0]
+        if got != want:
+            V.append(('C08', 'H/wrong-statement-executed', 'result %d of the session was produced by a statement other than %r, which the client had prepared for it' % (k, sql)))
+            break
+    return V
+
+
 def sql_of(m):
     """Statement text of a Query / Parse message (concrete)."""
     cm = HE.conc(m)
@@ -613,11 +692,22 @@ def h_violation(prop, key, cache_on, incomplete, hexs, n_before=None, denied_hex
         V = HE.judge(data, complete, dec, cache_on=cache_on, expect_incomplete=incomplete,
                      denied=(lambda mm: HE.conc(mm)[:1] in (b'Q', b'P') and any(t and t in HE.conc(mm) for t in dsql)) if dmsgs else None,
                      allow_pooler_replies=bool(eff_hex or custom_shards)) + customV
+        if cache_on and prop == 'C08':
+            full, _r = HE.split_messages(HE.bvs(hexs), 'client script')
+            V += c08_reference(data, full, dec, cache_on if isinstance(cache_on, int) and not isinstance(cache_on, bool) else None)
         hit = [v for v in V if v[0] == prop and v[1] == key]
         if prop == 'C16' and key == 'H/checkout-while-paused':
             # natively the pause gate is observed as: a request sent after PAUSE reaches a backend while the pool is still paused
             n = sum(1 for rq in data['reqs'] if rq.get('origin') == 'client')
             hit = [1] if (r.get('paused_at_end') and n > (n_before or 0)) else []
+        if prop == 'C10':
+            # natively: the cancel map still has an entry although the session holds no server (idle outside a transaction / gone),
+            # or has none / a wrong one while it holds one
+            ents = r.get('csmap_after_a', [])
+            if key == 'H/stale-cancel-key':
+                hit = [1] if ents else []
+            else:
+                hit = [1] if not ents else []
         if key == 'H/idle-client-keeps-server':
             # the second client (pool of ONE connection) is not served while the first one sits idle outside a transaction
             bout = bytes.fromhex(r.get('b_out', ''))
